@@ -344,7 +344,7 @@ def canonical_text(prog):
 
 # ===================================================================== fixed
 
-CONT_MARKS = ["&", "1", "+", "x", "$", "9", "!", "*", "c", "."]
+CONT_MARKS = ["&", "1", "+", "x", "$", "9", "!", "*", "c", ".", "#", "'", ";", "-", "C"]
 FIX_COMMENTS = ["C comment", "c", "* star ' \"", "! bang & more", "C     x = 1", "Cglued text", "cset up", "CCCCCC", "Call setup(n)", "*****", "c-----"]
 
 
